@@ -20,6 +20,11 @@ func xzLimitCases(rec *ev.Rec, try func(caseXZ) bool) {
 	if !ok {
 		return
 	}
+	if !propsSweep(rec, func(cfg gen.Cfg, data gen.Recipe) bool {
+		return try(caseXZ{Cfg: cfg, Data: data, Part: gen.Partition{Kind: "single"}})
+	}) {
+		return
+	}
 	for i, n := range []int{1<<21 - 273, 1 << 21, 1<<21 + 5000} {
 		if i%rec.Shards != rec.Shard {
 			continue
